@@ -129,7 +129,7 @@ func literalStringMustEscapeRune(r rune, ascii bool) stringLiteralQuoteRuneEscap
 	} else if ascii {
 		if r > 0xffff {
 			return stringLiteralQuoteRuneEscapeUCHAR8
-		} else if r > 0xff {
+		} else if r > 0x7f {
 			return stringLiteralQuoteRuneEscapeUCHAR4
 		}
 	}
